@@ -905,6 +905,24 @@ def quote_trigger_rule(rep, prog, cfg):
                 triggers.append(tr)
                 if {0x20, 0x09} <= chars:
                     good.append(tr)
+    if not (good and quote_push):
+        # the quoting decision is not written in one of the forms above: ask the transducer of the routine (A15) directly —
+        # an argument consisting of blanks, and one consisting of tabs, must come out in double quotes
+        try:
+            from .. import strenc
+            from .C06 import representatives
+            cells, reps, _np, _ng = representatives(prog, b)
+            picks = {cls: pick for nm, cls, pick in reps}
+            verdicts = {}
+            for cls in ("BLANK", "TAB"):
+                res = strenc.transducer(prog, b, [picks[cls]], cells)
+                verdicts[cls] = [it[1] for it in res.prefix] == [0x22] and [it[1] for it in res.suffix] == [0x22]
+            if all(verdicts.values()):
+                rep.ok(rule, cfg + "/blank and tab force quoting", detail={"decided_by": "A15 transducer", "quoted": verdicts})
+                return
+            triggers.append({"A15": verdicts})
+        except Exception as e:      # EncOpaque, missing class: fall through to the idiom verdict
+            triggers.append({"A15": "not analysable: %s" % (e,)})
     rep.check(bool(good) and bool(quote_push), rule, cfg + "/blank and tab force quoting", b.loc(b.span),
               "the escaping routine has no recognised quoting decision covering both separators: expected `argument.contains(<constant set including ' ' and '\\t'>)` "
               "controlling the push of '\"'; found membership tests %s and %d quote pushes (a parameter with the missing separator would arrive as two arguments)"
